@@ -2,6 +2,7 @@ package props
 
 import (
 	"fmt"
+	"strings"
 	"sync"
 	"sync/atomic"
 	"time"
@@ -159,6 +160,20 @@ type heldVal struct {
 	step int
 }
 
+type heldString struct {
+	s, copy string
+	step    int
+}
+
+func firstDiff(a, b string) int {
+	for i := 0; i < len(a) && i < len(b); i++ {
+		if a[i] != b[i] {
+			return i
+		}
+	}
+	return min(len(a), len(b))
+}
+
 func runC14Alias(c *Ctx) {
 	part, parts := c.ArgInt("part", 0), c.ArgInt("parts", 1)
 	total := c.Pick(1500, 6000)
@@ -176,6 +191,7 @@ func runC14Alias(c *Ctx) {
 		m := model.NewTModel("me")
 		n := 100 + r.Intn(300)
 		var held []heldVal
+		var heldStr []heldString
 		var trace []model.TOp
 		failed := false
 		for k := 0; k < n && !failed; k++ {
@@ -194,7 +210,25 @@ func runC14Alias(c *Ctx) {
 				}
 				return opsString(trace[from:])
 			}
-			// (b) values returned earlier are unaffected by this operation
+			// (b) values returned earlier are unaffected by this operation - the tracker's listing (a string) included
+			for _, h := range heldStr {
+				if h.s != h.copy {
+					c.R.Violate(rig.Violation{
+						Sig:    "c14|earlier-value-changed|String",
+						Detail: fmt.Sprintf("the string returned by String() at step %d reads differently after later operation %s (first difference near byte %d)", h.step, op, firstDiff(h.s, h.copy)),
+						Case:   Case("alias", idx), Witness: tail(),
+					})
+					failed = true
+					break
+				}
+			}
+			if k%7 == 3 && !failed {
+				s1 := st.String()
+				heldStr = append(heldStr, heldString{s: s1, copy: strings.Clone(s1), step: k})
+				if len(heldStr) > 6 {
+					heldStr = heldStr[1:]
+				}
+			}
 			for _, h := range held {
 				if !retDeepEq(h.val, h.copy) {
 					c.R.Violate(rig.Violation{
